@@ -461,9 +461,10 @@ class Recorder:
             if prog.get("model_descs"):
                 # programs exported by TLC from Machine.tla: log the descriptors so that the spec can
                 # rebuild the very arrays the model started from
-                init_args = {"descs": {k: {"sym": d["sym"], "kind": d["kind"], "ix": d["ix"], "charge": d["charge"],
+                init_args = {"descs": {k: ({"kind": "vector", "blocks": d["blocks"], "start": d["fill"]["start"]}
+                                           if d["kind"] == "vector" else {"sym": d["sym"], "kind": d["kind"], "ix": d["ix"], "charge": d["charge"],
                                            "drop": d["drop"], "phases": d.get("phases", []), "start": d["fill"]["start"],
-                                           "oddpos": d.get("oddpos", 1)} for k, d in prog["inputs"].items()}}
+                                           "oddpos": d.get("oddpos", 1)}) for k, d in prog["inputs"].items()}}
             ses = Session(self, prog["tid"], regs, cfg, init_args=init_args)
             for st in prog["steps"]:
                 ses.do(st)
